@@ -1970,6 +1970,10 @@ def python_to_sdocs(
     if depth is None:
         depth = float('inf')
 
+    if max_seq_len is None:
+        # No truncation: no sequence is longer than this.
+        max_seq_len = sys.maxsize
+
     doc = pretty_python_value(
         value,
         ctx=PrettyContext(
